@@ -12,6 +12,7 @@ NOTES = {
     'C07r3-a': {'caught_by_override': ['C08'], 'notes': 'Written against C07 (resume); what it breaks is observable only after an interrupted run, which is C08 territory: C08 catches it (recovery clauses), C07 - which never interrupts a run - does not.'},
     'C19r4-b': {'caught_by_override': ['C04'], 'notes': 'Needs an interruption that is an exception, not a kill (a finally block runs): C19 is quantified over kills and does not see it; C04 artifact-after-failure:descriptor does.'},
     'C08r4-b': {'extra_caught_by': ['C04']},
+    'C07r4-b': {'caught_by_override': ['C08'], 'notes': 'exists() = "the checkpoint directory is there": within run/delete/run histories the directory and the finished file always appear and disappear together (nested checkpoint names included), so C07 cannot see it; a directory without a finished file is what an interrupted run leaves behind, and C08 catches it (recovery-raised).'},
 }
 
 
